@@ -209,7 +209,15 @@ func newStreamCodec(rwc io.ReadWriteCloser, f streamEncoding) *streamCodec {
 
 func (c *streamCodec) Encode(ctx context.Context, m *capnp.Message) error {
 	c.wc.setWriteContext(ctx)
-	return c.enc.Encode(m)
+	c.wc.written = 0
+	err := c.enc.Encode(m)
+	if err != nil && c.wc.written > 0 {
+		// Some, but not all, of the message reached the stream (the
+		// encoder issues several writes per message and wraps their
+		// errors).  The stream is now in the middle of a frame.
+		return partialWriteError{err}
+	}
+	return err
 }
 
 func (c *streamCodec) Decode(ctx context.Context) (*capnp.Message, error) {
@@ -367,6 +375,7 @@ type ctxWriteCloser struct {
 	io.WriteCloser
 	ctx                 context.Context
 	partialWriteTimeout time.Duration
+	written             int // bytes written since last reset by the codec
 }
 
 // Write bytes to a writer while making a best effort to
@@ -375,6 +384,7 @@ type ctxWriteCloser struct {
 // ignore the Done signal to avoid partial writes.
 func (wc *ctxWriteCloser) Write(b []byte) (int, error) {
 	n, err := wc.write(b)
+	wc.written += n
 	if n > 0 && n < len(b) {
 		err = partialWriteError{err}
 	}
